@@ -253,6 +253,9 @@ pub fn test_predict(case: &PredictCase) -> TestResult {
 const LINE_POOL: &[char] = &[
     'a', 'b', 'Z', '1', '9', '(', ')', '.', ',', '-', '%', '/', '\\', ' ', 'ｱ', 'ｶ', 'ﾞ', '｡', 'あ', 'の', 'ア',
     '火', '星', 'Ａ', '１', '\r', '\0', '𠀋', '😀', '\u{200d}', '👨', '"', '\'', '\t',
+    // the non-ASCII sources of the normaliser table, four of which change their character type
+    // under normalisation (the dashes become the katakana prolonged sound mark)
+    '－', '―', '─', '–', '～', '､', '･', '｢', '｣', 'ー', 'メ',
 ];
 
 fn lines_strategy() -> impl Strategy<Value = Vec<Vec<u16>>> {
@@ -616,6 +619,9 @@ pub fn test_train(case: &vcommon::train::TrainCase) -> TestResult {
     }
     args.push("--model".into());
     args.push(fmodel.to_string_lossy().to_string());
+    if args.len() % 2 == 0 {
+        util::prefill(&fmodel, args.len());
+    }
     let r = util::run_tool("train", &args, b"")?;
     ensure!(!r.stderr.contains("panicked"), "train crashed: {}", r.stderr.lines().find(|l| l.contains("panicked")).unwrap_or(""));
     // the same pipeline through the library
